@@ -65,7 +65,7 @@ TRUSTED = [
     "tanh / sigmoid are opaque in the theorems; the float channel uses Lean's Float.tanh / Float.exp (libm) against torch's kernels to 1e-9",
 ]
 PARTIAL = [
-    "dropout > 0 (applied by the DP layer to the recurrent state too) and proj_size > 0 are outside the property and not modelled",
+    "dropout > 0 in TRAINING mode (applied by the DP layer to the recurrent state too; random masks are not comparable) and proj_size > 0 are outside the property and not modelled; dropout > 0 in eval mode is compared with torch.nn by the search",
     "dtype/device of the returned states is not modelled (Lean scalars are exact); the packed path allocates h_n/c_n with the default dtype (finding C13:packed:state-dtype), checked by a dedicated probe on the real code",
 ]
 
@@ -88,6 +88,8 @@ def layer_kwargs(c):
     kw = dict(num_layers=c["L"], bidirectional=bool(c["bidir"]), bias=bool(c["bias"]), batch_first=bool(c["bf"]))
     if c["kind"] in ("tanh", "relu"):
         kw["nonlinearity"] = c["kind"]
+    if c.get("dropout"):
+        kw["dropout"] = c["dropout"]      # compared in eval mode only (see oracle): there dropout is the identity
     return kw
 
 
@@ -139,6 +141,9 @@ def build(c):
     t.load_state_dict(sd)
     d = dp_cls(c["kind"])(c["I"], c["H"], **layer_kwargs(c)).double()
     d.load_state_dict(t.state_dict())
+    if c.get("dropout"):
+        t.eval()
+        d.eval()
     return t, d
 
 
@@ -341,6 +346,8 @@ def oracle(c, want_grads=True):
             d = vl.fix(t)
             if type(d).__name__ != "DPLSTM" or d is t:
                 return ("C13:lstm:fixer", f"validators/lstm.fix returned {type(d).__name__}", {})
+            if c.get("dropout"):
+                d.eval()      # the fixer builds a fresh layer (training mode); the comparison is in eval mode
     except Exception as e:
         return (f"{tag}:load_state_dict", f"loading the torch state_dict into the DP layer raised {type(e).__name__}: {e}", {})
     tk, dk = list(t.state_dict().keys()), list(d.state_dict().keys())
@@ -399,6 +406,24 @@ def oracle(c, want_grads=True):
         for k in gt:
             if gd[k] is None or not same(fl(gt[k]), fl(gd[k]), False):
                 return (f"{tag}:grad", f"gradient of {k} differs from torch.nn", {"torch": fl(gt[k]), "dp": fl(gd[k])})
+    # the same layer OBJECTS called again on a packed batch with the same (T, B) but another length pattern (a training loop
+    # with a fixed batch size): nothing derived from the first batch may be reused
+    if c["inp"] != "pad" and c["B"] >= 2 and len(set(c["lens"])) > 1:
+        c2 = dict(c, lens=list(reversed(c["lens"])) if c["inp"] == "pack_unsorted" else sorted([c["T"]] + [max(1, c["T"] - 1 - (i % 2)) for i in range(c["B"] - 1)], reverse=True))
+        if c2["lens"] != c["lens"]:
+            _, xin2, st2 = make_input(c2)
+            try:
+                o2t, h2t, c2t, _ = run_layer(t, c2, xin2, st2)
+            except Exception:
+                o2t = None
+            if o2t is not None:
+                try:
+                    o2d, h2d, c2d, _ = run_layer(d, c2, xin2, st2)
+                except Exception as e:
+                    return (f"{tag}:second-call:exception", f"second call on the same DP layer (lengths {c['lens']} then {c2['lens']}) raised {type(e).__name__}: {e}", {})
+                for what, a, b in (("output", o2t, o2d), ("h_n", h2t, h2d), ("c_n", c2t, c2d)):
+                    if a is not None and (tuple(a.shape) != tuple(b.shape) or not same(fl(a), fl(b), False)):
+                        return (f"{tag}:second-call:{what}", f"second call on the same layer objects (lengths {c['lens']} then {c2['lens']}): {what} differs from torch.nn", {"torch": fl(a), "dp": fl(b)})
     # checkpoints move in both directions
     try:
         t2 = torch_cls(c["kind"])(c["I"], c["H"], **layer_kwargs(c)).double()
@@ -780,6 +805,8 @@ def run(ctx):
         run_cases(ctx, cases)
         # failing-input search on the real code (no model involved)
         search = [gen_case(ctx.rng, mode="float") for _ in range(ctx.n(250, 6000))]
+        # dropout > 0 in eval mode (where it is the identity for torch.nn): L >= 2 so that torch accepts the option
+        search += [dict(gen_case(ctx.rng, mode="float", grid={"L": ctx.rng.choice([2, 3])}), dropout=ctx.rng.choice([0.3, 0.5])) for _ in range(ctx.n(20, 300))]
         # deep stacks ("any number of layers"): ten and more layers, small everything else
         search += [gen_case(ctx.rng, mode="float", grid={"L": ctx.rng.choice([10, 11, 12, 14])}) for _ in range(ctx.n(12, 200))]
         for c in search:
